@@ -706,6 +706,12 @@ func c08engCases(tier string) []c08engCase {
 	}
 	cs = append(cs, c08engCase{tag: "direct", shape: "direct", hist: []c08ans{c08errAns(1, 2), c08okAns(map[string]int{"x": 1}, nil)}})
 	cs = append(cs, c08engCase{tag: "direct", shape: "direct", hist: []c08ans{c08errAns(2, 0)}})
+	// 10. the answered task is the last node of the process (implicit end: no outgoing sequence flow)
+	cs = append(cs, c08engCase{tag: "last", shape: "last", hist: []c08ans{c08okAns(map[string]int{"x": 5, "r1": 2, "u": 7}, nil)}})
+	cs = append(cs, c08engCase{tag: "last", shape: "last", td: 2, hist: []c08ans{c08errAns(1, 2), c08errAns(1, 2), c08okAns(map[string]int{"x": 1}, nil)}})
+	cs = append(cs, c08engCase{tag: "last", shape: "last", hist: []c08ans{c08errAns(2, 0)}})
+	cs = append(cs, c08engCase{tag: "last", shape: "last", hist: []c08ans{c08errAns(3, 0)}})
+	cs = append(cs, c08engCase{tag: "last", shape: "last", hist: []c08ans{c08errAns(0, 0)}})
 	loopOf := func(xs ...int) []c08ans {
 		var h []c08ans
 		for _, x := range xs {
@@ -788,6 +794,8 @@ func c08engXMLShape(shape string, td int) (string, map[string]string) {
 		g.Connect(t, b, &eng.Cond{Op: "ne", Var: "x", K: 1})
 		g.Connect(a, en, nil)
 		g.Connect(b, en, nil)
+	case "last":
+		// T is the END of the process: no outgoing sequence flow, no end event (its answer is handled like any other)
 	case "loop":
 		a := g.Add("serviceTask", "A", "")
 		en := g.Add("endEvent", "end", "")
